@@ -34,7 +34,7 @@ if [ -d "$dir/demo" ]; then
 fi
 echo "== checks on the changed tree"
 for c in C01 C02 C03 C04 C05 C06 C07 C08 C09 C10 C11 C12 C13 C14 C15 C16 C17 C18 C19 C20; do
-  out=$(CSVERIFY_REPO="$d/repo" CSVERIFY_EVIDENCE_DIR="$d/ev" /verif/bin/csverify check $c 2>&1)
+  out=$(CSVERIFY_REPO="$d/repo" CSVERIFY_EVIDENCE_DIR="$d/ev" ${CSVERIFY_BIN:-/verif/bin/csverify} check $c 2>&1)
   n=$(echo "$out" | grep -c "^FINDING")
   i=$(echo "$out" | grep -c "^INFRA")
   if [ "$n" != "0" ] || [ "$i" != "0" ]; then echo "$c: $n finding(s) $i infra"; echo "$out" | grep -E "^(FINDING|INFRA)" | cut -c1-330 | head -4; fi
